@@ -26,7 +26,7 @@ NOT_DECIDED = ("That addr's public-suffix answer is right and that the reported 
 
 
 def check(run):
-    for cfg in ("A", "B"):
+    for cfg in run.cfgs("A", "B"):
         F = run.facts(cfg)
         run.guard("C12.1.totality", cfg, lambda: a7.check_cone(
             run, "C12.1.totality", F, cfg, a7_cones.REQUEST_ROOTS, a7_common.rows(), a7_common.ALL,
